@@ -1,13 +1,21 @@
+import IoraModel.Model.TeardownFacts
 /-!
-# Model of the TcpEngine command queue at shutdown (C05 T4)
+# Model of the engine command queue at shutdown (C05 T4) — TcpEngine AND UdpEngine
 
-Mirrors `include/iora/network/detail/tcp_engine.hpp`: `TcpEngine::enqueue` (push under `_cmdMutex` unless `_cmdsClosed`),
-`TcpEngine::process` (swap the deque out under the lock, dispatch each command; an `AddListener` command carrying a promise has
-it fulfilled in the normal arm or in the exception arm), the loop exit on `Cmd::Shutdown`, and the tail of
-`TcpEngine::shutdownDrain` (one more `process()`, then under `_cmdMutex`: `_cmdsClosed = true`, swap the residual commands out,
-fail their promises).  `fulfilled p` counts the `set_value` calls made for promise `p`.
+Mirrors `include/iora/network/detail/tcp_engine.hpp` and `udp_engine.hpp` (same shape, checked function by function by
+`TeardownFacts`): `enqueue` (push under the queue mutex unless the closed flag is set), `process` (swap the deque out under
+the lock, dispatch each command; an `AddListener` command carrying a promise has it fulfilled in the normal arm or in the
+exception arm), the three ways `_running` is cleared — `stop()`'s CAS on the caller's thread (`clearRunning`, followed by an
+ordinary `enqueue shutdown`), `detachForTermination()` (`clearRunning` with no command at all) and the dispatched Shutdown
+command —, the loop exit, the tail of `shutdownDrain` (one more `process()`, then under the queue mutex: closed := true, swap the
+residual commands out, fail their promises), and `start()` after a stop (`restart`: the queue is reopened).
+`fulfilled p` counts the `set_value` calls made for promise `p`.
+
+The model is instantiated with the regenerated facts of BOTH engines (`TeardownFacts.enqueueRefusesWhenClosed`, …): were one
+of them false the corresponding step would behave like the changed source (push into a closed queue, drop a residual promise).
 -/
 namespace Iora.EngineQueue
+open Iora
 
 inductive Cmd | addListener (p : Nat) | shutdown | other
   deriving DecidableEq, Repr
@@ -20,8 +28,8 @@ inductive Phase
   deriving DecidableEq, Repr
 
 structure State where
-  cmds : List Cmd := []            -- `_cmds`
-  closed : Bool := false           -- `_cmdsClosed`
+  cmds : List Cmd := []            -- `_cmds` / `_q`
+  closed : Bool := false           -- `_cmdsClosed` / `_qClosed`
   batch : List Cmd := []           -- the deque `process()` swapped out and is dispatching
   residual : List Cmd := []
   running : Bool := true           -- `_running`
@@ -32,18 +40,20 @@ structure State where
 
 inductive Step
   | enqueue (c : Cmd)              -- any thread
+  | clearRunning                   -- `stop()`'s successful CAS (any thread) or `detachForTermination()` (I/O thread, inside a callback)
   | swap                           -- I/O thread: `process()` takes the queue
   | dispatch (throws : Bool)       -- I/O thread: next command of the batch (normal arm / exception arm)
   | loopExit                       -- I/O thread: `_running` is false, the batch is done: enter shutdownDrain
-  | closeQueue                     -- I/O thread: `_cmdsClosed = true; residual.swap(_cmds)` under `_cmdMutex`
+  | closeQueue                     -- I/O thread: closed := true; residual.swap(queue) under the queue mutex
   | failResidual                   -- I/O thread: next residual command
+  | restart                        -- `start()` after the I/O thread has terminated: the queue is reopened
   deriving Repr
 
 def bump (f : Nat → Nat) (p : Nat) : Nat → Nat := fun q => if q = p then f q + 1 else f q
 
-/-- mirrors tcp_engine.hpp::TcpEngine::enqueue -/
+/-- mirrors tcp_engine.hpp::TcpEngine::enqueue / udp_engine.hpp::UdpEngine::enqueue -/
 def doEnqueue (s : State) (c : Cmd) : State :=
-  if s.closed then
+  if s.closed && TeardownFacts.enqueueRefusesWhenClosed then
     match c with
     | .addListener p => { s with rejected := p :: s.rejected }
     | _ => s
@@ -52,33 +62,44 @@ def doEnqueue (s : State) (c : Cmd) : State :=
     | .addListener p => { s with cmds := s.cmds ++ [c], accepted := p :: s.accepted }
     | _ => { s with cmds := s.cmds ++ [c] }
 
-/-- mirrors tcp_engine.hpp::TcpEngine::process — one command -/
-def doDispatch (s : State) (_throws : Bool) : State :=
+/-- mirrors tcp_engine.hpp::TcpEngine::process / udp_engine.hpp::UdpEngine::process — one command -/
+def doDispatch (s : State) (throws : Bool) : State :=
   match s.batch with
   | [] => s
-  | .addListener p :: rest => { s with batch := rest, fulfilled := bump s.fulfilled p }   -- set_value(ok) or, in the catch arm, set_value(false)
-  | .shutdown :: rest => { s with batch := rest, running := false }
+  | .addListener p :: rest =>
+    -- normal arm: set_value(ok); catch arm: set_value(false)
+    let fulfils := if throws then TeardownFacts.dispatchFulfilsCatchArm else TeardownFacts.dispatchFulfilsNormalArm
+    { s with batch := rest, fulfilled := if fulfils then bump s.fulfilled p else s.fulfilled }
+  | .shutdown :: rest => { s with batch := rest, running := if TeardownFacts.shutdownCommandClearsRunning then false else s.running }
   | .other :: rest => { s with batch := rest }
 
 def step (s : State) : Step → State
   | .enqueue c => doEnqueue s c
+  | .clearRunning => { s with running := false }
   | .swap =>
     (match s.phase, s.batch with
-     | .loop, [] => if s.running then { s with batch := s.cmds, cmds := [] } else s
+     | .loop, [] => { s with batch := s.cmds, cmds := [] }      -- the iteration may have begun before `_running` was cleared
      | .drain, [] => { s with batch := s.cmds, cmds := [] }
      | _, _ => s)
   | .dispatch t => (match s.phase with | .loop | .drain => doDispatch s t | _ => s)
   | .loopExit => (match s.phase, s.batch with | .loop, [] => if s.running then s else { s with phase := .drain } | _, _ => s)
   | .closeQueue =>
     (match s.phase, s.batch with
-     | .drain, [] => { s with closed := true, residual := s.cmds, cmds := [], phase := .residual }
+     | .drain, [] =>
+       if TeardownFacts.drainClosesAndTakesUnderOneLock then { s with closed := true, residual := s.cmds, cmds := [], phase := .residual }
+       else { s with closed := true, residual := [], phase := .residual }    -- residual taken in an earlier section: later pushes are stranded
      | _, _ => s)
   | .failResidual =>
     (match s.phase, s.residual with
      | .residual, [] => { s with phase := .exited }
-     | .residual, .addListener p :: rest => { s with residual := rest, fulfilled := bump s.fulfilled p }
+     | .residual, .addListener p :: rest =>
+       { s with residual := rest, fulfilled := if TeardownFacts.residualPromisesFailed then bump s.fulfilled p else s.fulfilled }
      | .residual, _ :: rest => { s with residual := rest }
      | _, _ => s)
+  | .restart =>
+    (match s.phase with
+     | .exited => { s with phase := .loop, closed := false, running := true }
+     | _ => s)
 
 def run (s : State) : List Step → State
   | [] => s
@@ -92,6 +113,10 @@ def ok (s : State) : Step → Bool
 def Disciplined : State → List Step → Prop
   | _, [] => True
   | s, st :: rest => ok s st = true ∧ Disciplined (step s st) rest
+
+def disciplinedB : State → List Step → Bool
+  | _, [] => true
+  | s, st :: rest => ok s st && disciplinedB (step s st) rest
 
 def init : State := {}
 
